@@ -52,6 +52,23 @@ def run(ctx):
         return out
     std.m2(ctx, "c02", "Shuffle_Trace", "Shuffle_Trace.cfg", 1600 if ctx.quick else 40000, negs, shards=8, jvms=1, evkeys=KEYS,
            strip=("kind", "msg", "seed", "npseed"))
+    # determinism ACROSS interpreter processes: the same seeded calls under two different hash salts
+    nx = 300 if ctx.quick else 4000
+    runs = []
+    for salt in (101, 202):
+        o = ctx.run_impl("c02", [dict(id=0, mode="xproc", seed=ctx.seed * 77 + 5, n=nx)], nproc=1, timeout_s=3000,
+                         env=dict(PYTHONHASHSEED=salt, VERIF_CASE_TIMEOUT=900))[0]
+        runs.append(o.get("outs"))
+    if runs[0] is None or runs[1] is None:
+        ctx.violation("M2", "seeded shuffles did not terminate / crashed in a fresh interpreter", dict(mode="xproc"), cls="xproc-crash")
+    else:
+        diff = [k for k in range(len(runs[0])) if runs[0][k] != runs[1][k]]
+        for k in diff[:3]:
+            ctx.violation("M2", "a seeded dinucleotide_shuffle call gives different outcomes in two interpreter processes: %r vs %r" % (
+                runs[0][k][:2], runs[1][k][:2]), dict(mode="xproc", seed=ctx.seed * 77 + 5, index=k), cls="xproc")
+        ctx.cov["evaluations"] += len(runs[0])
+        ctx.lane("xproc", calls=len(runs[0]), differing=len(diff), raised=sum(1 for o in runs[0] if o[0] != "ok"))
+        ctx.negative_control("two different outcome lists must be told apart", runs[0] != [["x"]] )
     if not ctx.quick:
         from .. import suite
         suite.suite_lane(ctx, ["tests/test_ersatz.py", "tests/test_ablate.py"], ["ersatz.shuffle", "ersatz.dinucleotide_shuffle"], clauses=("tensor",))
